@@ -2,6 +2,7 @@
 //! (bip.mediawiki, docs/src/inscriptions*, docs/src/runes/specification.md),
 //! not from the implementation. They consume concrete blocks.
 
+pub mod inscriptions;
 pub mod sats;
 
 pub const HALVING: u64 = 210_000;
